@@ -735,8 +735,10 @@ def _load_bearing(rep: Report, repo: Repo):
               "", repo.loc("block_diagonalization", calls[0] if calls else f))
     # eval_scope: user scope merged into a fresh dict (never the user's dict itself)
     sc = repo.find("algorithm_parsing::series_computation", R)
-    es = [n for n in own_nodes(sc) if isinstance(n, ast.Assign) and norm(n.targets[0]) == "eval_scope"]
-    ok = len(es) == 1 and isinstance(es[0].value, ast.Dict) and any(k is None and norm(v) in ("scope or {}",) for k, v in zip(es[0].value.keys, es[0].value.values))
+    from .e9 import exec_scope_table as _est4
+    _entries4, _last4, es_node4, has_user4 = _est4(repo, R)  # the dict handed to exec: a display built in this function
+    es = [es_node4]
+    ok = isinstance(es_node4.value, (ast.Dict, ast.Call)) and has_user4
     rep.check(ok, R, "algorithm_parsing::series_computation builds the exec scope as a fresh dict (`**(scope or {})`)", "", repo.loc("algorithm_parsing", sc))
 
 
